@@ -16,6 +16,9 @@ example : judgeEv [.malformed "x"] ≠ [] := by decide
 example : judgeEv [.unexpected "x"] ≠ [] := by decide
 example : judgeEv [.crash "crash SIGSEGV"] ≠ [] := by decide
 example : judgeEv [.sanitizer "sanitizer heap-use-after-free"] ≠ [] := by decide
+example : (judgeEv [.sanitizer "sanitizer x", .crash "crash exit 1"]).length = 1 := by decide      -- one incident, one verdict
+example : (judgeEv [.sanitizer "sanitizer x", .tickbegin 1, .crash "crash exit 1"]).length = 1 := by decide
+example : (judgeEv [.tickbegin 1, .tickbegin 1, .crash "crash exit 1"]).length = 2 := by decide     -- a crash of its own
 
 /-! fires exactly once, not early, by the first tick at or after its time -/
 example : judgeEv [sch 0 1 0 5 "a" 37, .tickbegin 5, .tickend 5] ≠ [] := by decide                       -- missed
